@@ -48,7 +48,10 @@ Fixpoint take (k : nat) (bs : bytes) : option (bytes * bytes) :=
             end
   end.
 
-Fixpoint lenN (bs : bytes) : N := match bs with [] => 0 | _ :: r => N.succ (lenN r) end.
+(* "fewer than n bytes left", in time O(min(n, length)) -- n comes from the stream and may be as large as 2^64 *)
+Fixpoint at_least (bs : bytes) (n : N) {struct bs} : bool :=
+  if n =? 0 then true else match bs with [] => false | _ :: r => at_least r (N.pred n) end.
+Definition short (bs : bytes) (n : N) : bool := negb (at_least bs n).
 
 Fixpoint rep_dec (d : bytes -> option (val * bytes)) (k : nat) (bs : bytes) : option (list val * bytes) :=
   match k with
@@ -79,7 +82,7 @@ Fixpoint dec (f : fmt) (bs : bytes) : option (val * bytes) :=
   | F_fail => None
   | F_unit => Some (VU, bs)
   | F_uint k => match take k bs with None => None | Some (h, r) => Some (VN (le_dec h), r) end
-  | F_raw n => if lenN bs <? n then None
+  | F_raw n => if short bs n then None
                else match take (N.to_nat n) bs with None => None | Some (h, r) => Some (VB h, r) end
   | F_pair a b => match dec a bs with
                   | None => None
@@ -89,7 +92,7 @@ Fixpoint dec (f : fmt) (bs : bytes) : option (val * bytes) :=
                  | None => None
                  | Some (x, r) => match dec (g x) r with None => None | Some (y, r') => Some (VP x y, r') end
                  end
-  | F_rep n e => if lenN bs <? n then None
+  | F_rep n e => if short bs n then None
                  else match rep_dec (dec e) (N.to_nat n) bs with None => None | Some (l, r) => Some (VL l, r) end
   | F_filter a p => match dec a bs with
                     | None => None
@@ -217,9 +220,6 @@ Definition param_body (hd : val) : fmt :=
 
 (* int32 type, name, body *)
 Definition param_fmt : fmt := F_dep (F_pair u32 string_fmt) param_body.
-
-(* the LE/LT flags as the implementation keeps them (make_comp): any non-zero flag is LE *)
-Definition flag_norm (v : val) : val := VN (Z.to_N (src_make_comp (Z.of_N (vnat v)))).
 
 (* ---- src/configurable.cpp ----------------------------------------------------------------------------------- *)
 Definition version3 : fmt := F_pair u32 (F_pair u32 u32).
